@@ -14,8 +14,7 @@ use serde_json::json;
 
 fn check(r: &Report, prop: &str, case: &LoopCase, index: u64) {
     let out = run_case(case);
-    let horizon = out.panic.as_deref().map_or(false, |m| m.contains(divan_verif_rt::clock::HORIZON_PANIC));
-    if horizon {
+    if out.horizon {
         r.add(&r.excluded, 1);
         return;
     }
